@@ -69,4 +69,18 @@ is tied to the Go compiler on every run (CM records: every enumerated shape, pre
 theorem compilable_meets_EmitOK (root : Node) (hwf : NodeWF root = true) (h : uncompilable root = none) :
     EmitOK root = true := compilable_EmitOK root hwf h
 
+/-- Finding `uncompilable-ptr-bytes-alone` (repaired in /repo): `type T struct { P *[]byte }` — the model of the
+emitter at the pinned commit rejects it (missing `bytes` import), the model of the emitter as it is accepts it;
+on types that also hold a plain `[]byte` the two agree. -/
+def soloPtrBytes : Node :=
+  .struct { typn := "T" } [.slice { typn := "[]byte", typu := "[]byte", name := "P", ptr := true, hasb := true, hasc := true }
+    (.basic { typn := "byte", typu := "byte" })]
+theorem original_rejects_ptr_bytes_alone :
+    uncompilableOriginal soloPtrBytes = some "ptr-bytes-alone" ∧ uncompilable soloPtrBytes = none := by decide
+theorem ptr_bytes_rule_only (root : Node) (h : uncompilableOriginal root = none) : uncompilable root = none := by
+  unfold uncompilableOriginal uncompilable uncompilableWith at *
+  cases hs : uncompilableShape root with
+  | none => simp
+  | some c => simp [hs] at h
+
 end Inspector.C14
